@@ -1520,6 +1520,30 @@ invalid_value:
 	return (ARCHIVE_FAILED);
 }
 
+/*
+ * The test of isoent_gen_joliet_identifier(), on the least length its
+ * identifiers can have: one that is not cut to the Joliet maximum
+ * keeps the length of the name, one that is cut keeps at least one
+ * byte for each of its 64 (long names: 103) UTF-16 units.
+ */
+static int
+isofile_joliet_path_too_long(struct iso9660 *iso9660, struct isofile *file)
+{
+	size_t ffmax, l, parent_len = 1;
+	const char *p, *slash;
+
+	ffmax = (iso9660->opt.joliet == OPT_JOLIET_LONGNAME)? 103: 64;
+	p = file->parentdir.s;
+	while (archive_strlen(&(file->parentdir)) > 0 && p != NULL) {
+		slash = strchr(p, '/');
+		l = (slash != NULL)? (size_t)(slash - p): strlen(p);
+		parent_len += ((l < ffmax)? l: ffmax) + 1;
+		p = (slash != NULL)? slash + 1: NULL;
+	}
+	l = archive_strlen(&(file->basename));
+	return (parent_len + ((l < ffmax)? l: ffmax) > 240);
+}
+
 static int
 iso9660_write_header(struct archive_write *a, struct archive_entry *entry)
 {
@@ -1567,6 +1591,19 @@ iso9660_write_header(struct archive_write *a, struct archive_entry *entry)
 	}
 	else if (r < ret)
 		ret = r;
+
+	/* iso9660_close() gives the whole image up when it meets a
+	 * full-pathname that Joliet cannot hold: refuse the entry now. */
+	if (iso9660->opt.joliet != OPT_JOLIET_DISABLE &&
+	    isofile_joliet_path_too_long(iso9660, file)) {
+		archive_set_error(&a->archive, ARCHIVE_ERRNO_MISC,
+		    "The regulation of Joliet extensions;"
+		    " A length of a full-pathname of `%s' is "
+		    "longer than 240 bytes",
+		    archive_entry_pathname(entry));
+		isofile_free(file);
+		return (ARCHIVE_FAILED);
+	}
 
 	/*
 	 * Ignore a path which looks like the top of directory name
